@@ -9,6 +9,7 @@ import (
 	"io"
 	"net"
 	"net/http"
+	"net/http/cookiejar"
 	"net/url"
 	"strings"
 	"sync"
@@ -56,6 +57,9 @@ type ClientHSCase struct {
 	// function over a connection the caller supplies (ws scheme, no
 	// subprotocols, no compression only).
 	ViaNewClient bool `json:"via_newclient,omitempty"`
+	// Jar: the Dialer has a cookie jar holding one cookie for the URL; the
+	// caller's own Cookie header values must all still be sent.
+	Jar bool `json:"jar,omitempty"`
 }
 
 var c14Keys sync.Map // every challenge key seen in this process
@@ -130,7 +134,7 @@ func genClientHSCase(t *rapid.T) ClientHSCase {
 	if ok(3, "accept_ok") {
 		r.Accept = rapid.SampledFrom([]string{"ok", "ok", "ok", "spaces"}).Draw(t, "accept")
 	} else {
-		r.Accept = rapid.SampledFrom([]string{"absent", "truncated", "otherkey", "stale", "trailing", "lower", "upper", "empty", "prefix"}).Draw(t, "accept_bad")
+		r.Accept = rapid.SampledFrom([]string{"absent", "truncated", "otherkey", "stale", "trailing", "lower", "upper", "empty", "prefix", "noncanonical", "noncanonical"}).Draw(t, "accept_bad")
 	}
 	if rapid.IntRange(0, 3).Draw(t, "hasextra") == 0 {
 		r.Extra = []string{"X-Server: test", "Set-Cookie: s=1"}
@@ -147,6 +151,7 @@ func genClientHSCase(t *rapid.T) ClientHSCase {
 	c.Chunks = genChunks(t, "chunks", 600)
 	c.RBuf = rapid.SampledFrom([]int{0, 0, 128, 256, 1024}).Draw(t, "rbuf")
 	c.ViaNewClient = rapid.IntRange(0, 2).Draw(t, "via_newclient") == 0
+	c.Jar = rapid.IntRange(0, 2).Draw(t, "jar") == 0
 	return c
 }
 
@@ -242,6 +247,14 @@ func checkC14(c ClientHSCase, o *Obs) error {
 		return rc, nil
 	}
 	d := websocket.Dialer{NetDialContext: hook, NetDialTLSContext: hook, Subprotocols: c.Subs, EnableCompression: c.Compress, ReadBufferSize: c.RBuf}
+	if c.Jar {
+		if jar, jerr := cookiejar.New(nil); jerr == nil {
+			for _, sch := range []string{"http", "https"} {
+				jar.SetCookies(&url.URL{Scheme: sch, Host: c.Host, Path: "/"}, []*http.Cookie{{Name: "gorilla", Value: "ws", Path: "/"}})
+			}
+			d.Jar = jar
+		}
+	}
 	var hdr http.Header
 	if c.Header != nil {
 		hdr = http.Header{}
@@ -443,6 +456,16 @@ func buildReply(r ReplySpec, key, staleKey string, compress bool) (reply, body [
 		acc = wsref.AcceptKey(staleKey)
 	case "trailing":
 		acc = acc + "x"
+	case "noncanonical":
+		// same 20 bytes for a lenient base64 decoder: the two unused bits of the
+		// last symbol are not zero
+		const alpha = "ABCDEFGHIJKLMNOPQRSTUVWXYZabcdefghijklmnopqrstuvwxyz0123456789+/"
+		b := []byte(acc)
+		b[26] = alpha[strings.IndexByte(alpha, b[26])|1+len(key)%3]
+		if string(b) == acc {
+			b[26] = alpha[strings.IndexByte(alpha, b[26])|2]
+		}
+		acc = string(b)
 	case "lower":
 		acc = strings.ToLower(acc)
 		if acc == wsref.AcceptKey(key) {
@@ -565,6 +588,14 @@ func checkClientRequest(c ClientHSCase, raw []byte, o *Obs) error {
 	}
 	if !c.Compress && len(p.get("Sec-WebSocket-Extensions")) != 0 {
 		return fmt.Errorf("extension offer %q sent although compression is disabled", p.get("Sec-WebSocket-Extensions"))
+	}
+	if c.Jar && !c.ViaNewClient {
+		// (a Cookie header of the caller replaces what the jar contributes;
+		// nothing is stated about that, only that caller headers are included)
+		if joined := strings.Join(p.get("Cookie"), "; "); c.Header["Cookie"] == nil && !strings.Contains(joined, "gorilla=ws") {
+			return fmt.Errorf("the cookie the Dialer's jar holds for this URL is missing from the request (Cookie: %q)", p.get("Cookie"))
+		}
+		o.ClassIf(len(c.Header["Cookie"]) > 1, "jar_plus_several_caller_cookie_values")
 	}
 	for k, vs := range c.Header {
 		if k == "Host" || k == "Sec-Websocket-Protocol" {
